@@ -28,6 +28,9 @@ ITER = z3.Function('iterate', Int, Obj, Obj)           # F1 applied k times
 ii = z3.Const('i!m', Int)
 
 
+CHARS = z3.Function('chars', z3.StringSort(), SeqObj)       # backend.str_to_chr_arr: the characters of a string, as KGChar objects
+
+
 def fold_unfold(init, seq):
     """definition of the left fold at (init, seq)"""
     n = z3.Length(seq)
@@ -88,6 +91,12 @@ def elementwise(r, n, term):
 
 
 def build(reg, src):
+    # the compiled shortcut of f/a and f\\a (numpy backend) must denote the adverb's value too: rows of the C05 value-equivalence check
+    def compiled_shortcuts(ctx):
+        from contracts import c05_values
+        return [r for r in c05_values.check_value_equivalence(ctx) if '[reduce-' in r['name'] or '[scan-' in r['name']]
+    compiled_shortcuts.__name__ = 'compiled-shortcuts'
+    reg.extra_checks.append(compiled_shortcuts)
     reg.assumptions += [
         "the verb is a pure function of its operands (uninterpreted F1/F2); functools.reduce is the left fold and itertools.accumulate "
         "the left scan; zip stops at the shorter operand; kg_asarray / asarray keep the members and their order (dtype aside)",
@@ -115,9 +124,23 @@ def build(reg, src):
            ensures=[lambda s, r: elementwise(r, LEN(B(s)), lambda i: F2(A(s), B(s)[i]))])
     reg.fn(AD + 'eval_adverb_each_right', cases=[('list', atom_case(['a', 'b'], monad=False, atoms=['a']))], returns='opaque',
            ensures=[lambda s, r: elementwise(r, LEN(B(s)), lambda i: F2(B(s)[i], A(s)))])
-    reg.fn(AD + 'eval_adverb_each_pair', cases=[('list', seq_case(['a'], monad=False)), ('atom', atom_case(['a'], monad=False))], returns='opaque',
-           ensures=[lambda s, r: (If(VBool(LEN(A(s)) <= 1), same(r, s.a0), elementwise(r, LEN(A(s)) - 1, lambda i: F2(A(s)[i], A(s)[i + 1]))) if is_seq(s.a0)
-                                  else same(r, s.a0))])
+    def str_case(eng, st):
+        seq_case([], monad=False)(eng, st)
+        st.env['a'] = VStr(z3.Const('a_str', z3.StringSort()))
+        xs, ii2 = z3.Const('x!s', z3.StringSort()), z3.Const('i!s', Int)
+        ys = z3.Const('y!s', z3.StringSort())
+        # a string operand reaches the verb as Klong CHARACTERS (KGChar objects), never as one-character Python strings
+        st.assume(z3.ForAll([xs], z3.Length(CHARS(xs)) == z3.Length(xs)))
+        st.assume(z3.ForAll([xs, ii2, ys], CHARS(xs)[ii2] != z3.Function('inj:str', z3.StringSort(), Obj)(ys)))
+
+    def pair_post(s, r):
+        if isinstance(s.a0, VStr):
+            cs, n = CHARS(s.a0.t), z3.Length(s.a0.t)
+            return If(VBool(n <= 1), same(r, s.a0), elementwise(r, n - 1, lambda i: F2(cs[i], cs[i + 1])))
+        return (If(VBool(LEN(A(s)) <= 1), same(r, s.a0), elementwise(r, LEN(A(s)) - 1, lambda i: F2(A(s)[i], A(s)[i + 1]))) if is_seq(s.a0)
+                else same(r, s.a0))
+    reg.fn(AD + 'eval_adverb_each_pair', cases=[('list', seq_case(['a'], monad=False)), ('atom', atom_case(['a'], monad=False)), ('string', str_case)],
+           returns='opaque', ensures=[pair_post])
     PAIR = z3.Function('pair', Int, Obj, Obj)       # the [index element] list handed to the verb
     reg.fn(AD + 'eval_adverb_each_index', cases=[('list', seq_case(['a']))], returns='opaque',
            ensures=[lambda s, r: If(VBool(LEN(A(s)) == 0), same(r, s.a0), elementwise(r, LEN(A(s)), lambda i: F1(PAIR(i, A(s)[i]))))])
@@ -258,14 +281,15 @@ def configure(eng):
         return lambda e, st, a, k, n: [(st, val(a, st))]
     def atom_pred(a):
         return a.pred('atom') if isinstance(a, VOpaque) else VBool(False)
-    X['is_empty'] = lambda e, st, a, k, n: [(st, VBool(z3.Length(a[0].t) == 0) if is_seq(a[0]) else VBool(False))]
-    X['is_iterable'] = lambda e, st, a, k, n: [(st, VBool(is_seq(a[0])))]
+    is_sq = lambda v: is_seq(v) or isinstance(v, VStr)
+    X['is_empty'] = lambda e, st, a, k, n: [(st, VBool(z3.Length(a[0].t) == 0) if is_sq(a[0]) else VBool(False))]
+    X['is_iterable'] = lambda e, st, a, k, n: [(st, VBool(is_sq(a[0])))]
     X['is_list'] = lambda e, st, a, k, n: [(st, VBool(is_seq(a[0])))]
     X['is_dict'] = lambda e, st, a, k, n: [(st, VBool(False))]
-    X['is_atom'] = lambda e, st, a, k, n: [(st, VBool(z3.Length(a[0].t) == 0) if is_seq(a[0]) else VBool(True))]
+    X['is_atom'] = lambda e, st, a, k, n: [(st, VBool(z3.Length(a[0].t) == 0) if is_sq(a[0]) else VBool(True))]
     X['backend.kg_asarray'] = lambda e, st, a, k, n: [(st, to_seq(e, st, a[0]))]
     X['bknp.asarray'] = lambda e, st, a, k, n: [(st, to_seq(e, st, a[0]))]
-    X['backend.str_to_chr_arr'] = lambda e, st, a, k, n: [(st, a[0])]
+    X['backend.str_to_chr_arr'] = lambda e, st, a, k, n: [(st, VSeq(CHARS(a[0].t)) if isinstance(a[0], VStr) else a[0])]
     X['safe_eq'] = lambda e, st, a, k, n: [(st, (a[0] == a[1]) if isinstance(a[0], VInt) else VBool(z3.Const(fresh_name('safe_eq'), Bool)))]
 
     def reduce_(e, st, a, k, n):
@@ -306,9 +330,10 @@ def configure(eng):
         if kind != 'list' or node.generators[0].ifs:
             return None
         seqs, mode = None, None
-        if is_seq(it):
+        is_sq2 = lambda v: is_seq(v) or isinstance(v, VStr)
+        if is_sq2(it):
             seqs, mode = [it], 'plain'
-        elif isinstance(it, VTuple) and it.items and it.items[0] == 'zip' and all(is_seq(x) for x in it.items[1:]):
+        elif isinstance(it, VTuple) and it.items and it.items[0] == 'zip' and all(is_sq2(x) for x in it.items[1:]):
             seqs, mode = list(it.items[1:]), 'zip'
         elif isinstance(it, VTuple) and it.items and it.items[0] == 'enumerate' and is_seq(it.items[1]):
             seqs, mode = [it.items[1]], 'enumerate'
@@ -320,7 +345,8 @@ def configure(eng):
             n = z3.If(z3.Length(q.t) < n, z3.Length(q.t), n)
         s1 = st.fork()
         s1.assume(z3.And(i >= 0, i < n))
-        members = [VOpaque(q.t[i], nonnull=True) for q in seqs]
+        # iterating a Python string yields one-character Python strings (inj:str), iterating an array its members
+        members = [VOpaque(z3.Function('inj:str', z3.StringSort(), Obj)(z3.SubString(q.t, i, 1)) if isinstance(q, VStr) else q.t[i], nonnull=True) for q in seqs]
         elem = members[0] if mode == 'plain' else VTuple(members) if mode == 'zip' else VTuple([VInt(i), members[0]])
         e.assign_target(node.generators[0].target, elem, s1, node)
         outs = [(s2, v) for s2, v in e.ev(node.elt, s1) if not isinstance(v, Raised)]
